@@ -564,6 +564,9 @@ func honest(a *hx.Args, res *hx.Result) {
 			if c.M[strconv.Itoa(i)] == 3 && i == 2 { // (only one index: hidden values must be pairwise distinct for the byte search)
 				v = new(gobig.Int).Sub(pow2(pk.Params.Lm), one) // boundary value 2^Lm - 1
 			}
+			if c.M[strconv.Itoa(i)] == 40 && i == 1 {
+				v = pow2(pk.Params.Lm) // boundary value 2^Lm: the smallest value that is signed by way of its hash
+			}
 			ms = append(ms, big.Convert(new(gobig.Int).Set(v)))
 		}
 		var cred *gabi.Credential
